@@ -30,8 +30,9 @@ def dec_fl(o):
     return (d, m, o["dtype"])
 
 
-def same_fl(a, b):
-    """exact equality of two decoded results (NaN == NaN, masked cells compared by mask only)"""
+def same_fl(a, b, ignore=None, ntargets=None):
+    """exact equality of two decoded results (NaN == NaN, masked cells compared by mask only); target pixels listed in
+    `ignore` (flat indices; the kd-tree was free to choose among equidistant sources there) are not compared"""
     if a is None or b is None:
         return a is b
     if isinstance(a[0], str) or isinstance(b[0], str):
@@ -40,6 +41,12 @@ def same_fl(a, b):
     db, mb, tb = b
     if da.shape != db.shape or ta != tb or (ma is None) != (mb is None):
         return False
+    if ignore and ntargets and da.size % ntargets == 0:
+        keep = np.ones(ntargets, dtype=bool)
+        keep[sorted(ignore)] = False
+        da, db = da.reshape(ntargets, -1)[keep], db.reshape(ntargets, -1)[keep]
+        if ma is not None:
+            ma, mb = ma.reshape(ntargets, -1)[keep], mb.reshape(ntargets, -1)[keep]
     if ma is not None:
         if not np.array_equal(ma, mb):
             return False
@@ -224,13 +231,13 @@ def make_source_points(r, tgt, radius, n, malformed):
         kind = r.random()
         if kind < 0.2:
             # tangent seekers: the point of largest longitude difference at chord distance u * radius from the pixel
-            a = chord_to_angle(radius * r.choice([0.99, 0.999, 0.9999, 0.99995]))
+            a = chord_to_angle(radius * r.choice([0.99, 0.999, 0.9999, 0.99995]) * (1 - r.random() * 1e-6))
             if abs(math.radians(la0)) + a < math.pi / 2 - 1e-9:
                 dl = math.degrees(math.asin(min(1.0, math.sin(a) / math.cos(math.radians(la0)))))
                 lt = math.degrees(math.asin(max(-1.0, min(1.0, math.sin(math.radians(la0)) / math.cos(a)))))
                 pts.append(((lo0 + r.choice([-1, 1]) * dl + 180.0) % 360.0 - 180.0, lt))
                 continue
-        u = r.choice([0.3, 0.6, 0.9, 0.97, 0.995, 0.9995, 0.99995, 1.0005, 1.01])
+        u = r.choice([0.3, 0.6, 0.9, 0.97, 0.995, 0.9995, 0.99995, 1.0005, 1.01]) * (1 - r.random() * 1e-6)
         if kind < 0.35:
             bearing = r.choice([0.0, math.pi])                 # due north / south: the latitude buffer (arc vs chord)
         else:
@@ -386,6 +393,14 @@ def only_ties(a, b):
     return all(len(x) == len(y) and [d for _, d in x] == [d for _, d in y] for x, y in zip(a, b))
 
 
+def tie_targets(a, b):
+    """target pixels where two neighbour maps differ although the distance sequences are identical"""
+    return {t for t, (x, y) in enumerate(zip(a, b)) if x != y and len(x) == len(y) and [d for _, d in x] == [d for _, d in y]}
+
+
+RESULT_INFO = {"nn": "info1"}     # every other result type is computed from the k-neighbour info
+
+
 def cfg_name(c):
     return "reduce=%s,segments=%s,nprocs=%s" % (c["reduce"], c["segments"], c["nprocs"])
 
@@ -401,126 +416,147 @@ def which_component(cfg, base):
 def check_case(ctx, case, obs, report):
     """Compare the runs of one case: the reduce_data=True reference (segments=1, nprocs=1) against the plain call
     (neighbour info mapped back to source indices + final arrays), every other run against the reference of the same
-    reduce_data flavour (raw arrays), and the two-step results against fresh calls.
+    reduce_data flavour (raw arrays), and the two-step results against fresh calls.  Where two runs differ only in WHICH of
+    several exactly equidistant sources the kd-tree returned (the tree is an oracle; pykdtree and scipy break ties
+    differently), the difference is counted as a tie and the affected target pixels are left out of the comparison of results.
     report(key, what, extra) is called per violation. Returns facts for attribution / book-keeping."""
     facts = {"lost_src": set(), "lost_tgt": set(), "neigh": 0, "ties": 0, "runs": 0, "errors": 0, "reduce_differs": False}
     if "driver_error" in obs or "geo_error" in obs:
         report("C03.driver", "driver could not build the case: %s" % (obs.get("driver_error") or obs.get("geo_error")), {})
         return facts
     runs = obs["runs"]
-    base = runs[0]
+    T = obs["T"]
     refs = {}                      # reduce flag -> (run, infos, canon, fresh)
+    thin_cls = case["tag"] == "thin"
     for run in runs:
         cfg = run["cfg"]
         facts["runs"] += 1
         name = cfg_name(cfg)
         infos = {"info1": info_arrays(run["info1"]), "infok": info_arrays(run["infok"])}
         fresh = [{t: dec_fl(v) for t, v in d.items()} if d else None for d in run["fresh"]]
-        is_ref = cfg["reduce"] not in refs
-        if is_ref:
-            canon = {}
-            for kk in ("info1", "infok"):
-                if infos[kk] is None:
-                    canon[kk] = None
-                    continue
+        canon = {}
+        for kk in ("info1", "infok"):
+            canon[kk] = None
+            if infos[kk] is not None:
                 canon[kk], prob = canon_info(infos[kk])
                 if prob:
-                    report("C03.reduce.info_shape" if cfg["reduce"] else "C03.plain_call", "%s: %s" % (name, prob), {"config": cfg})
+                    report("C03.info_shape", "%s: %s" % (name, prob), {"config": cfg})
                     canon[kk] = None
+        is_ref = cfg["reduce"] not in refs
+        if is_ref:
             refs[cfg["reduce"]] = (run, infos, canon, fresh)
             if not cfg["reduce"]:
                 if canon["info1"] is None or canon["infok"] is None:
                     report("C03.plain_call", "the plain call fails: %s %s" % (run["info1"].get("error"), run["infok"].get("error")), {})
                     return facts
                 facts["neigh"] = sum(len(x) for x in canon["infok"])
-        rrun, rinfo, rcanon, rfresh = refs[cfg["reduce"]]
+                continue
+        # what this run is compared with: the reduce_data=True reference with the plain call, every other run with the
+        # reference of its own reduce_data flavour
+        rrun, rinfo, rcanon, rfresh = refs[False] if is_ref else refs[cfg["reduce"]]
         rcfg = rrun["cfg"]
+        rname = "the plain call" if is_ref else cfg_name(rcfg)
         comp = "reduce" if is_ref else which_component(cfg, rcfg)
-        thin_cls = case["tag"] == "thin"
+        ties = {"info1": set(), "infok": set()}
         # -- neighbour info
         for kk in ("info1", "infok"):
             if infos[kk] is None:
                 facts["errors"] += 1
                 e = run[kk]
-                if is_ref or rinfo[kk] is not None:
+                if rinfo[kk] is not None:
                     thin = "0-d" in e.get("msg", "") and cfg["reduce"] and thin_cls
                     report("C03.reduce.thin_target_crash" if thin else "C03.%s.error" % comp,
-                           "get_neighbour_info(%s) raises %s(%s) where %s returns" % (
-                               name, e["error"], e.get("msg", ""), "the plain call" if is_ref else cfg_name(rcfg)),
+                           "get_neighbour_info(%s) raises %s(%s) where %s returns" % (name, e["error"], e.get("msg", ""), rname),
                            {"config": cfg, "stage": kk})
                 continue
-            if not is_ref:
-                if rinfo[kk] is not None and not raw_equal(infos[kk], rinfo[kk]):
-                    report("C03.%s.info" % comp, "neighbour info (%s) of %s differs from that of %s" % (kk, name, cfg_name(rcfg)),
-                           {"config": cfg, "reference": rcfg, "stage": kk})
+            if rinfo[kk] is None or canon[kk] is None or rcanon[kk] is None:
                 continue
-            if not cfg["reduce"]:
+            if not is_ref and raw_equal(infos[kk], rinfo[kk]):
                 continue
-            # the reduce_data=True reference against the plain call, through the original source indices
-            bcan = refs[False][2][kk]
-            can = rcanon[kk]
-            if can is None or can == bcan:
+            can, bcan = canon[kk], rcanon[kk]
+            if can == bcan:
+                if not is_ref:
+                    # same neighbours for every target, yet the raw arrays differ (layout, padding, dtype-independent values)
+                    report("C03.%s.info" % comp, "neighbour info arrays (%s) of %s differ from those of %s although they describe the same neighbours" % (
+                        kk, name, rname), {"config": cfg, "reference": rcfg, "stage": kk})
                 continue
+            ties[kk] = tie_targets(can, bcan)
             if only_ties(can, bcan):
                 facts["ties"] += 1
                 continue
-            facts["reduce_differs"] = True
-            kept = infos[kk]["vii"].astype(bool).ravel()
-            voi = infos[kk]["voi"].astype(bool).ravel()
-            for tt, (x, y) in enumerate(zip(can, bcan)):
-                if x != y:
-                    for s, _ in y:
-                        if not kept[s]:
-                            facts["lost_src"].add(s)
-                    if y and not voi[tt]:
-                        facts["lost_tgt"].add(tt)
-            t, got, want = first_diff(can, bcan)
-            report("C03.reduce.neighbours", "%s: target pixel %d gets neighbours %s, the plain call gets %s (source index, distance)" % (
-                name, t, list(got), list(want)),
-                {"config": cfg, "stage": kk, "target_pixel": t, "got": list(got), "want": list(want)})
-        # -- final arrays of fresh calls: reference vs plain call, others vs their reference
-        want_fresh = refs[False][3] if is_ref else rfresh
-        if not (is_ref and not cfg["reduce"]):
-            for di, d in enumerate(fresh):
-                if d is None or want_fresh[di] is None:
+            if is_ref:
+                facts["reduce_differs"] = True
+                kept = infos[kk]["vii"].astype(bool).ravel()
+                voi = infos[kk]["voi"].astype(bool).ravel()
+                for tt, (x, y) in enumerate(zip(can, bcan)):
+                    if x != y and tt not in ties[kk]:
+                        for s_, _ in y:
+                            if not kept[s_]:
+                                facts["lost_src"].add(s_)
+                        if y and not voi[tt]:
+                            facts["lost_tgt"].add(tt)
+            t, got, want = next((t, x, y) for t, (x, y) in enumerate(zip(can, bcan)) if x != y and t not in ties[kk])
+            report("C03.%s.neighbours" % comp, "%s: target pixel %d gets neighbours %s, %s gets %s (source index, distance)" % (
+                name, t, list(got), rname, list(want)),
+                {"config": cfg, "reference": rcfg, "stage": kk, "target_pixel": t, "got": list(got), "want": list(want)})
+        # -- final arrays of the fresh calls
+        for di, d in enumerate(fresh):
+            if d is None or rfresh[di] is None:
+                continue
+            for typ, got in d.items():
+                want = rfresh[di].get(typ)
+                ign = ties[RESULT_INFO.get(typ, "infok")]
+                if want is None or same_fl(got, want, ign, T):
                     continue
-                for typ, got in d.items():
-                    want = want_fresh[di].get(typ)
-                    if want is None or same_fl(got, want):
-                        continue
-                    if isinstance(got[0], str):
-                        thin = "0-d" in got[2] and cfg["reduce"] and thin_cls
-                        if is_ref or not isinstance(want[0], str):
-                            report("C03.reduce.thin_target_crash" if thin else "C03.%s.error" % comp,
-                                   "resample_%s(%s) raises %s(%s) where %s returns an array" % (
-                                       typ, name, got[1], got[2], "the plain call" if is_ref else cfg_name(rcfg)),
-                                   {"config": cfg, "type": typ, "dataset": di})
-                    else:
-                        if is_ref and facts["ties"] and not facts["reduce_differs"]:
-                            continue
-                        if is_ref:
-                            facts["reduce_differs"] = True
-                        report("C03.%s.result" % comp, "resample %s (%s) on dataset %d differs from %s%s" % (
-                            typ, name, di, "the plain call" if is_ref else cfg_name(rcfg), describe_diff(got, want)),
-                            {"config": cfg, "type": typ, "dataset": di})
+                if isinstance(got[0], str):
+                    thin = "0-d" in got[2] and cfg["reduce"] and thin_cls
+                    if not isinstance(want[0], str):
+                        report("C03.reduce.thin_target_crash" if thin else "C03.%s.error" % comp,
+                               "resample_%s(%s) raises %s(%s) where %s returns an array" % (typ, name, got[1], got[2], rname),
+                               {"config": cfg, "type": typ, "dataset": di})
+                else:
+                    if is_ref:
+                        facts["reduce_differs"] = True
+                    report("C03.%s.result" % comp, "resample %s (%s) on dataset %d differs from %s%s" % (
+                        typ, name, di, rname, describe_diff(got, want)), {"config": cfg, "reference": rcfg, "type": typ, "dataset": di})
         if run.get("info_unchanged_by_sampling") is False:
             report("C03.two_step.info_mutated", "get_sample_from_neighbour_info(%s) modified the neighbour info arrays it was given" % name,
                    {"config": cfg})
-        # -- two-step: info computed once and applied to every dataset, against fresh calls of the same configuration
-        #    (or, where no fresh call was made for that dataset, of the reference configuration)
+        # -- two-step: info computed once and applied to every dataset, against the fresh call of the same configuration;
+        #    where no fresh call was made for that dataset, against the fresh call of the reference configuration
+        #    (then a difference is one of that component, and ties are left out as above)
         for di, d in enumerate(run["two_step"]):
             if d is None:
                 continue
-            ref = fresh[di] if fresh[di] is not None else rfresh[di]
+            own = fresh[di] is not None
+            ref = fresh[di] if own else rfresh[di]
             if ref is None:
                 continue
             for typ, v in d.items():
                 got = dec_fl(v)
                 want = ref.get(typ)
-                if want is None or same_fl(got, want):
+                ign = None if own else ties[RESULT_INFO.get(typ, "infok")]
+                if want is None or same_fl(got, want, ign, T):
                     continue
-                report("C03.two_step", "get_sample_from_neighbour_info(%s, %s) on dataset %d differs from the fresh resample call%s" % (
-                    typ, name, di, describe_diff(got, want)), {"config": cfg, "type": typ, "dataset": di})
+                if not own and (facts["errors"] or (is_ref and facts["reduce_differs"])):
+                    continue        # already reported for this run
+                report("C03.two_step" if own else "C03.%s.result" % comp,
+                       "get_sample_from_neighbour_info(%s, %s) on dataset %d differs from the fresh resample call%s%s" % (
+                           typ, name, di, "" if own else " of " + rname, describe_diff(got, want)),
+                       {"config": cfg, "reference": rcfg, "type": typ, "dataset": di})
+    # the plain call's own two-step
+    run = runs[0]
+    fresh = refs[False][3]
+    for di, d in enumerate(run["two_step"]):
+        if d is None or fresh[di] is None:
+            continue
+        for typ, v in d.items():
+            got, want = dec_fl(v), fresh[di].get(typ)
+            if want is not None and not same_fl(got, want):
+                report("C03.two_step", "get_sample_from_neighbour_info(%s, plain call) on dataset %d differs from the fresh resample call%s" % (
+                    typ, di, describe_diff(got, want)), {"config": run["cfg"], "type": typ, "dataset": di})
+    if runs[0].get("info_unchanged_by_sampling") is False:
+        report("C03.two_step.info_mutated", "get_sample_from_neighbour_info (plain call) modified the neighbour info arrays it was given", {"config": runs[0]["cfg"]})
     return facts
 
 
@@ -908,10 +944,15 @@ def run(ctx):
 
 
 def replay(ctx, data):
+    """re-run the recorded case (plain call, reference and failing configuration); still failing = the same key is reported"""
     rp = data["case"]
     case = rp["case"]
     obs = ctx.impl("c03", {"cases": [case]})["cases"]
     reports, _, _ = analyse(ctx, [case], obs)
+    still = False
     for _, key, what, _ in reports:
-        print("  still failing: %s: %s" % (key, what[:300]))
-    return bool(reports) or bool(ctx.broken)
+        if key == data.get("key"):
+            if not still:
+                print("  still failing: %s: %s" % (key, what[:400]))
+            still = True
+    return still or bool(ctx.broken)
